@@ -51,6 +51,11 @@ CHECKS = {
             "containers, partitions), pickle, from_numpy/to_numpy over shapes x dtypes x memory layouts and masks, to_arrow/from_arrow x "
             "32-bit options; round-trip value, type and (where promised) option-ness compared by the reference layout interpreter.",
             "bounded exhaustive enumeration of conversion round trips on the real Python layer (tier L3)"),
+    "C17": ("exploration", "E1+E4", "Every layout of the value universe x encodings and every valid layout of the C11 grammar: type of form "
+            "equals type of array equals the reference skeleton; depth/field/regularity queries agree between Content, Form and the "
+            "reference; Form JSON round trips (verbose and terse) incl. a parameter alphabet of JSON values on every node class; printed "
+            "types are re-parsed by the repository's type parser; range slices keep the type and elements match the item type.",
+            "bounded exhaustive enumeration of layouts/forms/types on the real code, reference type-skeleton oracle"),
 }
 
 ENGINES = [
